@@ -258,3 +258,44 @@ func H_C05_window_sorted() {
 	verif.Assert(verif.Eq(got, want), "window")
 	verif.Reach("end")
 }
+
+// H_C05_window_distinct: the window is taken from the sequence that is
+// actually returned: after DISTINCT removed duplicates.
+func H_C05_window_distinct() {
+	n := verif.Choose("rows", maxRows(3, 4)+1)
+	ordered := verif.Choose("ordered", 2)
+	doc, rows := numTable(n, "a")
+	for _, r := range rows {
+		verif.Assume(verif.NotNegZero(f64of(r["a"])))
+	}
+	lim := verif.IntRange("limit", 0, 1<<31-1)
+	off := verif.IntRange("offset", 0, 1<<31-1)
+	sql := "SELECT DISTINCT a FROM t"
+	if ordered == 1 {
+		sql += " ORDER BY a"
+	}
+	got, ok := runQuery(doc, verif.SQL(sql+" LIMIT ? OFFSET ?", lim, off))
+	if !ok {
+		return
+	}
+	var proj []any
+	for _, r := range rows {
+		proj = append(proj, Map{"a": r["a"]})
+	}
+	seq := refDistinct(proj)
+	if ordered == 1 {
+		for i := 1; i < len(seq); i++ {
+			for j := i; j > 0 && f64of(seq[j].(Map)["a"]) < f64of(seq[j-1].(Map)["a"]); j-- {
+				seq[j], seq[j-1] = seq[j-1], seq[j]
+			}
+		}
+	}
+	var want []any
+	for i, r := range seq {
+		if i >= off && i-off < lim {
+			want = append(want, r)
+		}
+	}
+	verif.Assert(verif.Eq(got, want), "window")
+	verif.Reach("end")
+}
